@@ -110,9 +110,32 @@ EXTRA6 = {
 for _pid, _d in EXTRA5.items():
     _t0, _d0, _n0 = EXTRA.get(_pid, ('', '', None))
     EXTRA[_pid] = (_t0, _d0 + _d, _n0)
+TECH6 = {
+ 'C01': '; acknowledgement-needs-effect path search (zero values of declared locals and fields of local struct values as facts)',
+ 'C02': '; component-wise forward dataflow for the quantiser corners; path enumeration with exact rational arithmetic for the rounding direction',
+ 'C03': '; static call-graph reachability from the script call path to writes of the log file; who-may-write on the log file',
+ 'C05': '; scenario must-pass-through for the rendering of a classified event',
+ 'C06': '; scenario evaluation of the HEALTHZ handler (follower, live bit false)',
+ 'C07': '; who-may-write on the log file (every write hands over the log buffer); decision of the lock primitives by guarded compare-and-swap',
+ 'C08': '; path search from flag-clearing calls (call-graph summary) to the append',
+ 'C09': '; taint dataflow from the guarded registries to the conditions of sentinel error returns, compared with a decision-table evaluation of the loader predicate; must-pass-through of the emission in the rewrite callback',
+ 'C10': '; path search with boolean correlation from the selection of subscribe to the acknowledgement, avoiding the registration',
+ 'C11': '; path search between the calls that receive the request cursor',
+ 'C12': '; decision tables (DT) for Less/Equals over the comparison atom; guard extraction for offset skipping in the star loop against the chunk matcher\'s case labels',
+ 'C13': '; bounded-magnitude reasoning for inverse trigonometric arguments (clamp on every path)',
+ 'C14': '; must-pass-through of the emission in the rewrite callback',
+ 'C15': '; scenario evaluation of the connection closure with the peer test in prefix or parsed form, helpers evaluated under the scenario',
+ 'C16': '; def-use of locals across the per-read command loop against the fields the loop assigns',
+ 'C17': '; interval facts from dominating comparisons for the websocket length field; bounded-magnitude reasoning for inverse trigonometric arguments',
+ 'C18': '; static call-graph reachability from the script call path to writes of the log file',
+}
 for _pid, _d in EXTRA6.items():
     _t0, _d0, _n0 = EXTRA.get(_pid, ('', '', None))
-    EXTRA[_pid] = (_t0, _d0 + _d, _n0)
+    EXTRA[_pid] = (_t0 + TECH6.get(_pid, ''), _d0 + _d, _n0)
+for _pid, _t in TECH6.items():
+    if _pid not in EXTRA6:
+        _t0, _d0, _n0 = EXTRA.get(_pid, ('', '', None))
+        EXTRA[_pid] = (_t0 + _t, _d0, _n0)
 for _pid, (_t, _d, _n) in EXTRA.items():
     _tech, _dec, _not = CLAIMED[_pid]
     CLAIMED[_pid] = (_tech + _t, _dec + _d, _n if _n else _not)
